@@ -4,7 +4,8 @@ From Kardia Require Import Base.Int64 C19.Model C19.ProofsBasic.
 Import ListNotations.
 Local Open Scope Z_scope.
 
-(** [double_sign cid c e]: the evidence consists of two votes of one validator for the same
+(** [double_sign cid c e]: the evidence consists of two votes of one validator (same address,
+    both carrying that validator's index in the set) for the same
     height, round and type and different block ids, both validly signed by that validator
     (ideal signatures over chain id, type, height, round, block id, vote time), the validator
     belongs to the set the chain has for that height, and the two powers the evidence states
@@ -13,9 +14,9 @@ Definition double_sign (cid : N) (c : chain) (e : evidence) : Prop :=
   let a := e_a e in let b := e_b e in
   v_height a = v_height b /\ v_round a = v_round b /\ v_type a = v_type b /\
   v_addr a = v_addr b /\ bid_eqb (v_bid a) (v_bid b) = false /\
-  exists vs val,
+  exists vs val idx,
     vals_at c (e_height e) = Some vs /\ In val vs /\ val_addr val = v_addr a /\
-    find_val (v_addr a) vs = Some val /\
+    find_idx (v_addr a) vs 0 = Some (idx, val) /\ v_idx a = idx /\ v_idx b = idx /\
     val_power val = e_power e /\ total_power vs = e_total e /\
     vote_sig_valid cid (v_addr a) a = true /\ vote_sig_valid cid (v_addr a) b = true.
 
@@ -30,10 +31,30 @@ Definition expired (st : pstate) (evh evt : Z) : Prop :=
 
 Definition sound (cid : N) (c : chain) (e : evidence) : Prop := double_sign cid c e /\ timed c e.
 
+Lemma find_idx_addr a : forall vs i j v, find_idx a vs i = Some (j, v) -> val_addr v = a /\ In v vs.
+Proof.
+  induction vs as [|x t IH]; cbn; [discriminate|]. intros i j v.
+  destruct (N.eqb (val_addr x) a) eqn:E.
+  - intros H; inversion H; subst. apply N.eqb_eq in E. auto.
+  - intros H. destruct (IH _ _ _ H). auto.
+Qed.
+
+Lemma find_idx_find_val a : forall vs i j v, find_idx a vs i = Some (j, v) -> find_val a vs = Some v.
+Proof.
+  induction vs as [|x t IH]; cbn; [discriminate|]. intros i j v.
+  destruct (N.eqb (val_addr x) a); [intros H; inversion H; auto|]. apply IH.
+Qed.
+
+Lemma find_val_find_idx a : forall vs i v, find_val a vs = Some v -> exists j, find_idx a vs i = Some (j, v).
+Proof.
+  induction vs as [|x t IH]; cbn; [discriminate|]. intros i v.
+  destruct (N.eqb (val_addr x) a); [intros H; inversion H; eauto|]. apply IH.
+Qed.
+
 Lemma verify_duplicate_vote_ok e cid vs :
   verify_duplicate_vote e cid vs = VOk ->
-  exists val,
-    find_val (v_addr (e_a e)) vs = Some val /\
+  exists val idx,
+    find_idx (v_addr (e_a e)) vs 0 = Some (idx, val) /\ v_idx (e_a e) = idx /\ v_idx (e_b e) = idx /\
     v_height (e_a e) = v_height (e_b e) /\ v_round (e_a e) = v_round (e_b e) /\
     v_type (e_a e) = v_type (e_b e) /\ v_addr (e_a e) = v_addr (e_b e) /\
     bid_eqb (v_bid (e_a e)) (v_bid (e_b e)) = false /\
@@ -42,7 +63,9 @@ Lemma verify_duplicate_vote_ok e cid vs :
     vote_sig_valid cid (val_addr val) (e_b e) = true.
 Proof.
   unfold verify_duplicate_vote.
-  destruct (find_val (v_addr (e_a e)) vs) as [val|] eqn:Hf; [|discriminate].
+  destruct (find_idx (v_addr (e_a e)) vs 0) as [[idx val]|] eqn:Hf; [|discriminate].
+  destruct (N.eqb (v_idx (e_a e)) idx) eqn:I1; cbn [andb negb]; [|discriminate].
+  destruct (N.eqb (v_idx (e_b e)) idx) eqn:I2; cbn [andb negb]; [|discriminate].
   destruct (N.eqb (v_height (e_a e)) (v_height (e_b e))) eqn:E1; cbn [andb negb]; [|discriminate].
   destruct (N.eqb (v_round (e_a e)) (v_round (e_b e))) eqn:E2; cbn [andb negb]; [|discriminate].
   destruct (N.eqb (v_type (e_a e)) (v_type (e_b e))) eqn:E3; cbn [andb negb]; [|discriminate].
@@ -52,8 +75,8 @@ Proof.
   destruct (Z.eqb (total_power vs) (e_total e)) eqn:E7; cbn [negb]; [|discriminate].
   destruct (vote_sig_valid cid (val_addr val) (e_a e)) eqn:E8; cbn [negb]; [|discriminate].
   destruct (vote_sig_valid cid (val_addr val) (e_b e)) eqn:E9; cbn [negb]; [|discriminate].
-  intros _. exists val.
-  apply N.eqb_eq in E1, E2, E3, E4. apply Z.eqb_eq in E6, E7. auto 12.
+  intros _. exists val, idx.
+  apply N.eqb_eq in E1, E2, E3, E4, I1, I2. apply Z.eqb_eq in E6, E7. auto 14.
 Qed.
 
 Lemma verify_ok p c e :
@@ -69,11 +92,11 @@ Proof.
                   (wrap64 (wrap64 (st_height (p_state p)) - wrap64 (e_height e)))) eqn:Ex; [discriminate|].
   destruct (vals_at c (e_height e)) as [vs|] eqn:Hv; [|discriminate].
   intros Hd. apply verify_duplicate_vote_ok in Hd.
-  destruct Hd as [val [Hf [H1 [H2 [H3 [H4 [H5 [H6 [H7 [H8 H9]]]]]]]]]].
-  destruct (find_val_addr _ _ _ Hf) as [Ha Hin].
+  destruct Hd as [val [idx [Hf [I1 [I2 [H1 [H2 [H3 [H4 [H5 [H6 [H7 [H8 H9]]]]]]]]]]]]].
+  destruct (find_idx_addr _ _ _ _ _ Hf) as [Ha Hin].
   split; [split|].
   - unfold double_sign. repeat (split; [assumption|]).
-    rewrite Ha in H8, H9. exists vs, val. auto 10.
+    rewrite Ha in H8, H9. exists vs, val, idx. auto 12.
   - exact Hb.
   - unfold expired. intros [Hd Hbk].
     apply andb_false_iff in Ex. destruct Ex as [Ex|Ex]; apply Z.ltb_ge in Ex; lia.
@@ -97,8 +120,8 @@ Lemma sound_mono cid c c' e : chain_le c c' -> sound cid c e -> sound cid c' e.
 Proof.
   intros [Ht Hv] [Hd Htm]. split.
   - unfold double_sign in *.
-    destruct Hd as [H1 [H2 [H3 [H4 [H5 [vs [val [Hvs Hrest]]]]]]]].
-    repeat (split; [assumption|]). exists vs, val. split; auto.
+    destruct Hd as [H1 [H2 [H3 [H4 [H5 [vs [val [idx [Hvs Hrest]]]]]]]]].
+    repeat (split; [assumption|]). exists vs, val, idx. split; auto.
   - unfold timed in *. auto.
 Qed.
 
@@ -132,15 +155,15 @@ Proof. unfold bid_eqb. rewrite (N.eqb_sym (b_hash a)), (N.eqb_sym (b_total a)), 
 Lemma generated_verifies p c hash size va vb ts vs :
   conflicting_votes (st_chain (p_state p)) va vb ->
   vals_at c (Z.of_N (v_height va)) = Some vs ->
-  find_val (v_addr va) vs <> None ->
+  (exists idx val, find_idx (v_addr va) vs 0 = Some (idx, val) /\ v_idx va = idx /\ v_idx vb = idx) ->
   block_time c (Z.of_N (v_height va)) = Some ts ->
   ~ expired (p_state p) (Z.of_N (v_height va)) ts ->
   exists e, new_duplicate_vote_evidence hash size va vb ts vs = Some e /\
             validate_basic e = true /\ verify p c e = VOk.
 Proof.
-  intros [Hh [Hr [Ht [Ha [Hk [Hba [Hbb [Hsa Hsb]]]]]]]] Hvs Hfind Hbt Hexp.
+  intros [Hh [Hr [Ht [Ha [Hk [Hba [Hbb [Hsa Hsb]]]]]]]] Hvs [idx [val [Hfi [Hia Hib]]]] Hbt Hexp.
   unfold new_duplicate_vote_evidence.
-  destruct (find_val (v_addr va) vs) as [val|] eqn:Hf; [|congruence].
+  pose proof (find_idx_find_val _ _ _ _ _ Hfi) as Hf. rewrite Hf.
   destruct (find_val_addr _ _ _ Hf) as [Hva _].
   assert (Hnexp : (Z.ltb (max_age_dur (st_params (p_state p))) (sat_sub (st_time (p_state p)) ts) &&
             Z.ltb (max_age_blocks (st_params (p_state p)))
@@ -155,7 +178,8 @@ Proof.
     + unfold validate_basic. cbn [e_a e_b]. rewrite Hba, Hbb, Hlt. reflexivity.
     + unfold verify, e_height. cbn [e_a e_b e_time]. rewrite Hbt, Z.eqb_refl. cbn [negb].
       rewrite Hnexp, Hvs.
-      unfold verify_duplicate_vote. cbn [e_a e_b e_power e_total]. rewrite Hf.
+      unfold verify_duplicate_vote. cbn [e_a e_b e_power e_total]. rewrite Hfi.
+      rewrite Hia, Hib, !N.eqb_refl. cbn [andb negb].
       rewrite Hh, Hr, Ht, !N.eqb_refl. cbn [andb negb].
       rewrite Ha, N.eqb_refl. cbn [negb].
       rewrite (key_eq_false_bid _ _ Hk), !Z.eqb_refl. cbn [negb].
@@ -165,7 +189,8 @@ Proof.
     + unfold validate_basic. cbn [e_a e_b]. rewrite Hba, Hbb, Hlt2. reflexivity.
     + unfold verify, e_height. cbn [e_a e_b e_time]. rewrite <- Hh, Hbt, Z.eqb_refl. cbn [negb].
       rewrite Hnexp, Hvs.
-      unfold verify_duplicate_vote. cbn [e_a e_b e_power e_total]. rewrite <- Ha, Hf.
+      unfold verify_duplicate_vote. cbn [e_a e_b e_power e_total]. rewrite <- Ha, Hfi.
+      rewrite Hia, Hib, !N.eqb_refl. cbn [andb negb].
       rewrite <- Hh, <- Hr, <- Ht, !N.eqb_refl. cbn [andb negb].
       rewrite bid_eqb_sym, (key_eq_false_bid _ _ Hk), !Z.eqb_refl. cbn [negb].
       rewrite Hva. rewrite Ha in Hsb at 1. rewrite <- Ha in Hsb.
